@@ -1073,6 +1073,11 @@ class StubsStringGenerator:
 
             qname = qname or import_qname
 
+            if "." not in qname:
+                # A name without a module (e.g. a builtin like "bytes" or an unresolved name, both can be found in
+                # docstring types) can't be imported and has no module a stub could be created for
+                return
+
             if not in_package:
                 self.classes_outside_package.add(qname)
 
